@@ -205,12 +205,30 @@ func fmod(t *rt.Thread, c *rt.GoCont) (rt.Cont, error) {
 	}
 	x, _ := rt.ToNumberValue(c.Arg(0))
 	y, _ := rt.ToNumberValue(c.Arg(1))
-	res, ok, err := rt.Mod(x, y)
-	if !ok {
-		err = errors.New("expected numeric arguments")
-	}
-	if err != nil {
-		return nil, err
+	// fmod rounds the quotient towards zero (the result has the sign of x),
+	// unlike the % operator which rounds it towards minus infinity.
+	var res rt.Value
+	nx, xIsInt := x.TryInt()
+	ny, yIsInt := y.TryInt()
+	switch {
+	case xIsInt && yIsInt:
+		switch ny {
+		case 0:
+			// Same error as n % 0
+			_, _, err := rt.Mod(x, y)
+			return nil, err
+		case -1:
+			res = rt.IntValue(0) // avoids overflow of mininteger % -1
+		default:
+			res = rt.IntValue(nx % ny)
+		}
+	default:
+		fx, okx := rt.ToFloat(x)
+		fy, oky := rt.ToFloat(y)
+		if !okx || !oky {
+			return nil, errors.New("expected numeric arguments")
+		}
+		res = rt.FloatValue(math.Mod(fx, fy))
 	}
 	return c.PushingNext1(t.Runtime, res), nil
 }
